@@ -136,7 +136,7 @@ class SetV:
         n = SetV(); n.items = [clone_val(e, p) for p in s.items]; return n
 
 
-def collect_into(e, ty, it, crate):
+def collect_into(e, ty, it, crate, raw=''):
     base = last_seg(ty)
     if base == 'Vec' or base == 'VecDeque': return VecV(list(drain(e, it)))
     if base == 'String':
@@ -176,8 +176,11 @@ def collect_into(e, ty, it, crate):
         return SOME(collect_into(e, inner, ListIter(out), crate))
     if base == 'Box':
         return collect_into(e, 'Vec', it, crate)
-    # user type: FromIterator impl in the repository
-    return e.call_path(crate, '<%s as FromIterator<_>>::from_iter' % ty, [it])
+    # user type: FromIterator impl in the repository; the item type is read off the source iterator's type
+    item = '_'
+    m = re.search(r'IntoIter<(\(.*?\)|[^<>,]+)>', raw) or re.search(r"Iter<'_, (\(.*?\)|[^<>,]+)>", raw)
+    if m: item = m.group(1)
+    return e.call_path(crate, '<%s as FromIterator<%s>>::from_iter' % (ty, item), [it])
 
 
 # ---- Iterator adaptors ----------------------------------------------------------------------
@@ -231,7 +234,7 @@ def _(e, c, a, raw): return into_iter(e, a[0])
 @model('re:^<.* as Iterator>::collect$')
 def _(e, c, a, raw):
     ty = turbofish(raw)[0]
-    return collect_into(e, ty, getiter(e, a[0]), e._call_crate)
+    return collect_into(e, ty, getiter(e, a[0]), e._call_crate, raw)
 @model('re:^<.* as FromIterator<.*>>::from_iter$')
 def _(e, c, a, raw):
     m = re.match(r'^<(.*) as FromIterator<', raw, re.S)
